@@ -147,6 +147,9 @@ def c19(ctx, replay):
         "gain = exp(-1/frames) is pinned by g^n * e = 1 within (n+2)*2^-22 against a verified rational enclosure of e "
         "for frames in {1/4, 1/2, 1, 2, 5, 64}; other time constants are not exercised",
         "model checking uses rational stand-in gains 0, 1/2, 3/4 and histories up to 3 (quick) / 4 (thorough) operations",
+        "a zero time is handed over as +0.0 or as IEEE -0.0 (flags nza/nzr/nz); both are the time 0 to the model",
+        "adaptor runs over a finite source read past its end (cfg.srclen): the later inputs are the equilibrium frames "
+        "such a signal yields (that it does is C04/C05's matter); the recurrence is required to keep running on them",
     ]
     rej, _ = env_pipeline(ctx, replay)
     _breakdown(ctx, rej)
